@@ -24,6 +24,7 @@ import (
 
 	"github.com/pkg/xattr"
 	"github.com/versity/versitygw/s3err"
+	"github.com/versity/versitygw/verifhook"
 )
 
 const (
@@ -47,6 +48,7 @@ func (x XattrMeta) RetrieveAttribute(f *os.File, bucket, object, attribute strin
 		return b, err
 	}
 
+	verifhook.At("meta.get", bucket, object, attribute)
 	b, err := xattr.Get(filepath.Join(bucket, object), xattrPrefix+attribute)
 	if errors.Is(err, xattr.ENOATTR) {
 		return nil, ErrNoSuchKey
@@ -64,6 +66,7 @@ func (x XattrMeta) StoreAttribute(f *os.File, bucket, object, attribute string, 
 		return err
 	}
 
+	verifhook.At("meta.set", bucket, object, attribute)
 	err := xattr.Set(filepath.Join(bucket, object), xattrPrefix+attribute, value)
 	if errors.Is(err, syscall.EROFS) {
 		return s3err.GetAPIError(s3err.ErrMethodNotAllowed)
@@ -73,6 +76,7 @@ func (x XattrMeta) StoreAttribute(f *os.File, bucket, object, attribute string, 
 
 // DeleteAttribute removes the value of a specific attribute for an object in a bucket.
 func (x XattrMeta) DeleteAttribute(bucket, object, attribute string) error {
+	verifhook.At("meta.del", bucket, object, attribute)
 	err := xattr.Remove(filepath.Join(bucket, object), xattrPrefix+attribute)
 	if errors.Is(err, xattr.ENOATTR) {
 		return ErrNoSuchKey
